@@ -206,8 +206,12 @@ def write_replay(prop, violation):
 
 
 def write_evidence(prop, tier, seed, level, coverage, assumptions, wall_s, violations):
-    os.makedirs(os.path.join(VERIF, 'evidence'), exist_ok=True)
-    path = os.path.join(VERIF, 'evidence', f'{prop}.json')
+    # evidence/ describes runs against /repo itself; a run against a scratch tree (VERIF_REPO:
+    # seeded changes, mutants) leaves its evidence in the git-ignored replays/ directory
+    edir = os.path.join(VERIF, 'evidence') if os.path.realpath(REPO) == '/repo' else \
+        os.path.join(VERIF, 'replays', 'evidence-scratch')
+    os.makedirs(edir, exist_ok=True)
+    path = os.path.join(edir, f'{prop}.json')
     body = {
         'property_id': prop, 'tier': tier, 'seed': seed, 'level': level,
         'coverage': jsonable(coverage), 'assumptions': assumptions,
